@@ -87,9 +87,11 @@ pub struct SrvOpts {
     pub warmup: bool,
     /// the same Listener is started again (for 1.2 s) after the cycle under test has returned
     pub cycle_after: bool,
+    /// runtime workers of the server (0: one thread, as in every other case)
+    pub workers: usize,
 }
 impl Default for SrvOpts {
-    fn default() -> Self { SrvOpts { proxy: None, limiter: None, timeout: Duration::from_secs(3), secret: None, max_len: 10_000, expiry: 21_600, gated: false, warmup: false, cycle_after: false } }
+    fn default() -> Self { SrvOpts { proxy: None, limiter: None, timeout: Duration::from_secs(3), secret: None, max_len: 10_000, expiry: 21_600, gated: false, warmup: false, cycle_after: false, workers: 0 } }
 }
 
 type L = Listener<LStatus, LDisc, LFilt, LStrat, LAuth, LLoc>;
@@ -157,7 +159,8 @@ impl Srv {
         let (o2, stop2, seen2, gate2, ret2) = (o.clone(), stop.clone(), seen.clone(), gate.clone(), returned.clone());
         std::thread::spawn(move || {
             *tid2.lock().unwrap() = std::fs::read_link("/proc/thread-self").ok().and_then(|p| p.file_name().and_then(|n| n.to_str().and_then(|s| s.parse().ok())));
-            let rt = tokio::runtime::Builder::new_current_thread().enable_all().build().unwrap();
+            let rt = if o2.workers > 0 { tokio::runtime::Builder::new_multi_thread().worker_threads(o2.workers).enable_all().build().unwrap() }
+                else { tokio::runtime::Builder::new_current_thread().enable_all().build().unwrap() };
             rt.block_on(async move {
                 let mut l = build_listener(&o2, &seen2, &gate2);
                 if o2.warmup {
@@ -680,6 +683,7 @@ fn c15_case(req: &str) -> Case {
         match ids.iter().position(|x| *x == ip) { Some(i) => 10 + i, None => { ids.push(ip); 9 + ids.len() } }
     };
     let via_app = kvs(req, "via").as_deref() == Some("app");
+    if kvs(req, "burst").as_deref() == Some("1") { return c15_burst(req, proxy, (v1, v2ok), &allow, limit, &hdrs, pcfg); }
     rt().block_on(async {
         // either the Listener built by hand, or the application entry point with a configuration value
         let srv = if via_app { None } else { Some(Srv::start(&SrvOpts { proxy: if proxy { Some((v1, v2ok)) } else { None }, limiter: limit, timeout: Duration::from_secs(2), secret: Some(b"s3cret".to_vec()), ..Default::default() })) };
@@ -765,6 +769,57 @@ fn c15_case(req: &str) -> Case {
     })
 }
 
+/// All connections of the case at once, against a server on several runtime workers (as the application runs it): whatever
+/// the order in which they reach the limiter, every address gets exactly its budget. The case uses ONE peer and ONE header,
+/// so the multiset of outcomes is the same for every schedule; it is reported served-first, the order of the sequential model.
+fn c15_burst(req: &str, proxy: bool, allowed: (bool, bool), allow: &str, limit: Option<usize>, hdrs: &[(u8, usize)], pcfg: ParseConfig) -> Case {
+    let srv = Srv::start(&SrvOpts { proxy: if proxy { Some(allowed) } else { None }, limiter: limit, timeout: Duration::from_secs(5), secret: Some(b"s3cret".to_vec()), workers: 8, ..Default::default() });
+    let port = srv.port;
+    let (peer, hi) = hdrs[0];
+    assert!(hdrs.iter().all(|h| *h == (peer, hi)), "a burst case uses one peer and one header");
+    let peer_ip = Ipv4Addr::new(127, 0, 0, peer);
+    let mut first = if proxy { header_menu(hi) } else { vec![] };
+    first.extend(status_bytes());
+    let class = if proxy { classify(&first, pcfg) } else { HClass::NoAddr };
+    let eff: Option<IpAddr> = match &class { HClass::Source(ip) => Some(*ip), HClass::NoAddr => Some(IpAddr::V4(peer_ip)), HClass::Invalid => None };
+    let id = match eff { Some(IpAddr::V4(v)) if v.octets()[0] == 127 => v.octets()[3] as usize, _ => 10 };
+    let n = hdrs.len();
+    let crt = tokio::runtime::Builder::new_multi_thread().worker_threads(8).enable_all().build().unwrap();
+    let barrier = Arc::new(tokio::sync::Barrier::new(n));
+    let first = Arc::new(first);
+    let mut observed: Vec<String> = crt.block_on(async {
+        let mut hs = vec![];
+        for _ in 0..n {
+            let (b, first) = (barrier.clone(), first.clone());
+            hs.push(tokio::spawn(async move {
+                // without a header the limiter is reached on accept, with one after the header: line up before whichever it is
+                if proxy { let Ok(mut c) = Cli::connect(port, Some(peer_ip)).await else { b.wait().await; return "X".to_string() }; c.phase = ClientPhase::Status; b.wait().await; c.raw(&first).await;
+                    match c.recv(Duration::from_millis(4000)).await { Recv::Packet(CbPacket::StatusResponse(_)) => format!("S{id}"), Recv::Closed => "R".into(), Recv::Timeout => "H".into(), _ => "G".into() } }
+                else { b.wait().await; let Ok(mut c) = Cli::connect(port, Some(peer_ip)).await else { return "X".to_string() }; c.phase = ClientPhase::Status; c.raw(&first).await;
+                    match c.recv(Duration::from_millis(4000)).await { Recv::Packet(CbPacket::StatusResponse(_)) => format!("S{id}"), Recv::Closed => "R".into(), Recv::Timeout => "H".into(), _ => "G".into() } }
+            }));
+        }
+        let mut out = vec![];
+        for h in hs { out.push(h.await.unwrap_or_else(|_| "P".into())); }
+        out
+    });
+    crt.shutdown_timeout(Duration::from_millis(0));
+    srv.stop.cancel();
+    observed.sort_by_key(|o| !o.starts_with('S'));
+    if class == HClass::Invalid { for o in observed.iter_mut() { if o == "R" { *o = "C".into(); } } }
+    let served = observed.iter().filter(|o| o.starts_with('S')).count();
+    let budget = match (eff, limit) { (None, _) => 0, (_, None) => n, (_, Some(l)) => l.min(n) };
+    let mut why = vec![];
+    if served != budget { why.push(format!("{n} simultaneous connections of one address with a budget of {budget}: {served} were served")); }
+    if observed.iter().any(|o| !(o.starts_with('S') || o == "R" || o == "C")) { why.push(format!("outcomes other than served/turned away: {:?}", observed.iter().filter(|o| !(o.starts_with('S') || *o == "R" || *o == "C")).collect::<Vec<_>>())); }
+    let texts = ["10.1.1.1", "10.1.1.2", "10.1.1.3", "10.9.9.9", "999.1.1.1", "2001:db8::1", "2001:db8::2", "2001:db8::99", "::ffff:10.1.1.1"];
+    let conn_tok = format!("{peer}/{}", match &class { HClass::Source(_) => format!("s{id}"), HClass::NoAddr => "n".into(), HClass::Invalid => "i".into() });
+    let request = format!("c15.run proxy={} allow={allow} limit={} via=listener burst=1 hdrs={} login=0 conns={}", u8::from(proxy), limit.map_or("off".to_string(), |n| n.to_string()),
+        kvs(req, "hdrs").unwrap(), vec![conn_tok; n].join(";"));
+    let _ = texts;
+    Case { request, observed: observed.join(","), oracle: if why.is_empty() { None } else { Some(why.join("; ")) }, class: format!("burst proxy={} limiter={}", u8::from(proxy), if limit.is_some() { "on" } else { "off" }) }
+}
+
 pub fn run_c15(a: &Args) {
     let mut reqs: Vec<String> = read_corpus(&a.corpus).into_iter().filter(|l| l.starts_with("c15.")).collect();
     let mut rng = Rng::new(a.seed);
@@ -781,6 +836,12 @@ pub fn run_c15(a: &Args) {
     // the boundary configuration "nobody is admitted", through the application entry point and through the Listener
     reqs.push("c15.run proxy=0 allow=11 limit=0 via=app hdrs=1/7;2/7;1/7 login=0".into());
     reqs.push("c15.run proxy=1 allow=11 limit=0 via=listener hdrs=1/0;2/4;1/1 login=0".into());
+    // bursts: many simultaneous connections of one address, server on several workers
+    for k in 0..(if a.thorough { 12 } else { 4 }) {
+        let proxy = k % 2 == 1;
+        let h = if proxy { [0usize, 4][(k / 2) % 2] } else { 0 };
+        reqs.push(format!("c15.run proxy={} allow=11 limit={} via=listener burst=1 hdrs={} login=0", u8::from(proxy), 1 + k % 3, vec![format!("{}/{h}", 1 + k % 2); 96].join(";")));
+    }
     let cases = retry_failed(par_cases(a.seed, reqs.len(), |i, _| guarded(&reqs[i], c15_case)), &reqs, |r| guarded(r, c15_case));
     write_cases(&a.out, &cases).expect("write cases");
     println!("c15: {} cases", cases.len());
